@@ -122,3 +122,22 @@ func relatedNameDocs() []string {
 	}
 	return out
 }
+
+// shortStringPairDocs: pairs of short string values that collide under careless keys (differ only
+// in trailing / leading U+0000, one a prefix of the other, same bytes in escaped and plain
+// spelling, same length), as siblings, cousins and member values.
+func shortStringPairDocs() []string {
+	bs := "\\"
+	nul := bs + "u0000"
+	vals := []string{`""`, `"` + nul + `"`, `"a"`, `"a` + nul + `"`, `"a` + nul + nul + `"`, `"` + nul + `a"`, `"ab"`, `"a` + bs + `u0001"`, `"` + U("0061") + `"`, `"abcdefgh"`, `"abcdefgh` + nul + `"`, `"abcdefg"`, `"b"`}
+	var out []string
+	for _, x := range vals {
+		for _, y := range vals {
+			if x == y {
+				continue
+			}
+			out = append(out, "["+x+","+y+"]", "[["+x+"],["+y+"]]", `{"k":`+x+`,"l":`+y+`}`, `[{"k":`+x+`},{"k":`+y+`}]`)
+		}
+	}
+	return out
+}
